@@ -76,6 +76,8 @@ class Report:
         for k in ("paths", "queries", "unsupported", "timeouts", "unknowns"):
             self.stats[k] += st.get(k, 0)
         self.stats["solver_ms"] += int(st.get("solver_s", 0) * 1000)
+        if st.get("judge_skipped"):
+            self.inconcl(f"job {self.job.get('name')}: {st['judge_skipped']} path(s) ran out of budget before their inputs were recorded")
         if st.get("incomplete"):
             self.inconcl(f"job {self.job.get('name')} exploration incomplete (budget): {st.get('pending_prefixes')} prefixes pending")
 
@@ -284,6 +286,10 @@ def main(modname, argv=None):
     for v, r in zip(to_replay, rres):
         v["replay"] = r
         if not r.get("violates"):
+            if v["sig"].startswith("hang:"):
+                # the symbolic path ran out of its time budget (machine load, solver time) but the concrete input terminates
+                inconcl.append(f"{v['job']}: per-path time budget exhausted on an input that terminates concretely ({v['sig']})")
+                continue
             if getattr(mod, "ABSTRACT_SIGS", None) and any(v["sig"].startswith(p) for p in mod.ABSTRACT_SIGS):
                 inconcl.append(f"{v['job']}: over-approximated model gave non-reproducing counterexample {v['sig']}")
                 continue
